@@ -1664,6 +1664,8 @@ class Exec:
         raise ToolLimit('call of %s' % type(f).__name__)
 
     def call_class(self, f, args, kws, st, ctx, n):
+        if self.repo.is_enum(f.qual) and (f.qual, '__call__') in self.hooks:
+            return self.hooks[(f.qual, '__call__')](self, st, f, args)          # a scenario's contract for the look-up by value
         if self.repo.is_enum(f.qual):
             mem = self.repo.enum_members(f.qual)
             x = self.as_int(args[0])
